@@ -23,7 +23,7 @@ TECHNIQUE = ('explicit-state bfs over structured edits x option settings on full
              'line/token/comment diff against an allowed region computed from CPython positions, the token stream and a reference of '
              'the documented trivia selection')
 LEVEL_TEXT = ('every edit of the alphabet (replace, remove, slice put/delete, insert at every target) x 9 trivia/pep8space/elif_/docstr '
-              'settings on 28 programs (12 fully commented, 12 shared, 4 hostile: comments ending in a backslash or looking like code, multi-line and nested f-strings inside re-indented blocks) is executed; all old non-blank lines outside the allowed line span must be '
+              'settings on 31 programs (12 fully commented, 12 shared, 7 hostile: comments ending in a backslash or looking like code, multi-line and nested f-strings inside re-indented blocks) is executed; all old non-blank lines outside the allowed line span must be '
               'byte-identical and in order, the payload token sequence (names, numbers, strings, non-separator keywords) must equal the old one with the tokens inside the edited extent swapped for those of the new code, and the comment multiset must be conserved '
               'except for comments the effective trivia option selects')
 LEVEL_NOTE = ('trusted: CPython ast positions / tokenize; the trivia reference treats the option as permission, not obligation; the '
@@ -31,7 +31,7 @@ LEVEL_NOTE = ('trusted: CPython ast positions / tokenize; the trivia reference t
 RULE = ('bfs: transitions = edits applied; non-trivial = distinct (pre-state, edit) that changed the source; states = canonical '
         '(src, positioned dump); traces = transitions diffed against the allowed region')
 ASSUMPTIONS = ['norm=True, pars auto', 'comments in the programs are unique so that conservation is a multiset check']
-BOUNDS = {'quick': '28 programs, depth 1, 2 codes per category (src form), 9 option settings',
+BOUNDS = {'quick': '31 programs, depth 1, 2 codes per category (src form), 9 option settings',
           'thorough': 'depth 2 with the 1-code alphabet; 4 codes, 3 forms at depth 1'}
 
 COMMENTED = [
@@ -60,6 +60,9 @@ HOSTILE = [
     "if a:\n    pass\nelif b:\n    w = f'''{\n1}\n  {f'{2}'}\n{f'''\n {3}\n'''}\n    e'''\n    x = '\\\n  c\\\nd'\nfor i in j:\n    y = f'''\n  {i}\n{f'{i}'}\n'''",
     # nested block first in a def (its extent is computed - and cached - while the tree is built), last statement commented
     "def f(x):  # c0\n    if x:  # c1\n        g(x)  # c2\n        a = h(x)  # c3\n    b = 2  # c4\n    return b  # c5",
+    # undelimited name / target lists at the end of a block section, semicolons (also inside a string) in the sections that follow
+    "try:  # c0\n    import a, b  # c1\nexcept E:  # c2\n    print('no; way')  # c3\nelse:  # c4\n    del p, q  # c5\nfinally:  # c6\n    r; s  # c7",
+    "def f():  # c0\n    if a:  # c1\n        global g, h  # c2\n    elif b:  # c3\n        from m import i, j  # c4\n    else:  # c5\n        k = 1; l = 2  # c6",
 ]
 for _p in HOSTILE:
     ast.parse(_p)
